@@ -986,20 +986,58 @@ type SchemaInput struct {
 func checkSchema(in SchemaInput) string {
 	v1 := &ref.Table{ID: 100, DB: "shop", Name: "gauge", Flags: 1, Cols: []ref.Column{
 		ref.ColInt(ref.TLong, "id", false), ref.ColInt(ref.TLong, "v", false), ref.ColInt(ref.TTiny, "w", false), ref.ColInt(ref.TLongLong, "x", true)}}
+	if strings.HasPrefix(in.Variant, "fsp") {
+		// temporal columns whose precision lives in the table-map metadata only
+		v1.Cols = append(v1.Cols, ref.ColFsp(ref.TDateTime2, "created", 3), ref.ColFsp(ref.TTime2, "took", 1), ref.ColFsp(ref.TTimestamp2, "seen", 5))
+		if in.Variant == "fsp0" {
+			v1.Cols[4].Meta, v1.Cols[5].Meta, v1.Cols[6].Meta = []byte{0}, []byte{0}, []byte{0}
+		}
+	}
 	v2 := &ref.Table{ID: 101, DB: "shop", Name: "gauge", Flags: 1, Cols: append([]ref.Column{}, v1.Cols...)}
 	switch in.Variant {
+	case "fsp", "fsp0":
+		// ALTER ... MODIFY changes only the precisions; the SAME table id is announced again
+		v2.ID = v1.ID
+		v2.Cols[4], v2.Cols[5], v2.Cols[6] = ref.ColFsp(ref.TDateTime2, "created", 4), ref.ColFsp(ref.TTime2, "took", 2), ref.ColFsp(ref.TTimestamp2, "seen", 6)
+		if in.Variant == "fsp0" {
+			v2.Cols[4], v2.Cols[5], v2.Cols[6] = ref.ColFsp(ref.TDateTime2, "created", 6), ref.ColFsp(ref.TTime2, "took", 3), ref.ColFsp(ref.TTimestamp2, "seen", 0)
+		}
 	case "sign":
 		v2.Cols[1].Unsigned, v2.Cols[2].Unsigned, v2.Cols[3].Unsigned = true, true, false
 	case "name":
 		v2.Cols[1].Name, v2.Cols[2].Name = "value", "weight"
 	}
 	row := func(t *ref.Table, k int64) ref.Image {
+		img := rowBase(t, k)
+		if len(t.Cols) > 4 {
+			f := func(i int) int { return int(t.Cols[i].Meta[0]) }
+			trunc := func(micro, fsp int) int {
+				p := 1
+				for i := fsp; i < 6; i++ {
+					p *= 10
+				}
+				return micro / p * p
+			}
+			img = append(img, ref.VDateTimeFsp(f(4), 2012, 6, 21, 15, 45, 17, trunc(765432, f(4))),
+				ref.VTime2(f(5), k%2 == 0, 15, 34, 54, trunc(765432, f(5))), ref.VTimestamp2(f(6), 1490106309, trunc(765432, f(6)), time.Local))
+		}
+		return img
+	}
+	_ = row
+	return checkSchemaWith(in, v1, v2, row)
+}
+
+func rowBase(t *ref.Table, k int64) ref.Image {
+	{
 		// cells with the top bit set: the text depends on the signedness
 		return ref.Image{ref.VInt(ref.TLong, k, false),
 			ref.Cell{Raw: []byte{0xff, 0xff, 0xff, 0xff}, Text: []byte(map[bool]string{false: "-1", true: "4294967295"}[t.Cols[1].Unsigned])},
 			ref.Cell{Raw: []byte{0x80}, Text: []byte(map[bool]string{false: "-128", true: "128"}[t.Cols[2].Unsigned])},
 			ref.Cell{Raw: []byte{0, 0, 0, 0, 0, 0, 0, 0x80}, Text: []byte(map[bool]string{false: "-9223372036854775808", true: "9223372036854775808"}[t.Cols[3].Unsigned])}}
 	}
+}
+
+func checkSchemaWith(in SchemaInput, v1, v2 *ref.Table, row func(t *ref.Table, k int64) ref.Image) string {
 	g := &Gen{Cfg: in.Cfg}
 	ts := g.tick()
 	second := ref.RowChange{After: row(v2, 2)}
@@ -1043,7 +1081,7 @@ func checkSchema(in SchemaInput) string {
 func RunSchemaChange(r *chk.Run) {
 	var n int64
 	for _, cfg := range Cfgs() {
-		for _, v := range []string{"sign", "name"} {
+		for _, v := range []string{"sign", "name", "fsp", "fsp0"} {
 			for kind := 0; kind < 3; kind++ {
 				in := SchemaInput{Variant: v, Cfg: cfg, Kind: kind}
 				n++
@@ -1059,7 +1097,6 @@ func RunSchemaChange(r *chk.Run) {
 		}
 	}
 	r.Eval(n)
-	r.States(n)
 	r.DistinctN(n)
 	r.Set("schema_change_histories", n)
 }
@@ -1219,6 +1256,329 @@ func ReplayNum(input json.RawMessage) (bool, string) {
 	why := checkNum(in)
 	if why == "" {
 		return false, "every row of the event is delivered with the values written"
+	}
+	return true, why
+}
+
+// ---- table ids at the edges of their 4- and 6-byte fields -------------------------
+
+// IDInput is the replay form of a table-id execution.
+type IDInput struct {
+	ID  uint64  `json:"id"`
+	Cfg ref.Cfg `json:"cfg"`
+}
+
+func checkTableID(in IDInput) string {
+	t := TA(in.ID)
+	g := &Gen{Cfg: in.Cfg}
+	ts := g.tick()
+	evs := []*ref.AEvent{ref.Q(ts, "shop", "BEGIN"), ref.TM(ts, t),
+		ref.R(ts, ref.RowWrite, t, ref.RowChange{After: rowA(1, "a", 1)}, ref.RowChange{After: rowA(2, "b", 2)}, ref.RowChange{After: rowA(3, "c", 3)}),
+		ref.TM(ts, t), ref.R(ts, ref.RowDelete, t, ref.RowChange{Before: rowA(1, "a", 1)}), ref.X(ts+1, 821),
+		ref.Q(ts+2, "shop", "BEGIN"), ref.TM(ts+2, t), ref.R(ts+2, ref.RowUpdate, t, ref.RowChange{Before: rowA(2, "b", 2), After: rowA(2, "B", 65535)}), ref.X(ts+3, 822)}
+	h := &ref.History{Cfg: in.Cfg, Files: []*ref.File{{Name: "mysql-bin.000001", Events: evs}}}
+	h.Layout()
+	start := ref.Position{File: "mysql-bin.000001", Pos: 4}
+	served, _ := h.Serve(start.File, 4)
+	exp, stop := ref.Expect(served, start)
+	if stop != nil {
+		return "generator error: " + stop.Why
+	}
+	out := Run(h, Opts{Start: start, ServerID: 3, LockStep: false})
+	if out.Hung {
+		return "HUNG"
+	}
+	if out.StreamPanic[0] != "" {
+		return "panic in Stream: " + firstLine(out.StreamPanic[0])
+	}
+	if out.StreamErr[0] != nil {
+		return "Stream failed on a well-formed binlog: " + clip(out.StreamErr[0].Error(), 200)
+	}
+	return hx.CompareAll(exp, out.Snaps())
+}
+
+// RunTableIDs streams rows of a table whose id lies at the edges of the id
+// field (the server's "dummy" id is all ones in the WHOLE field; ids whose low
+// 24 bits are all ones are ordinary tables), in every wire configuration.
+func RunTableIDs(r *chk.Run) {
+	var n int64
+	for _, cfg := range Cfgs() {
+		ids := []uint64{0, 1, 0xfffffe, 0xffffff, 0x1000000, 0x1ffffff, 0xa3ffffff, 0xfffffffe}
+		if cfg.TableID6 {
+			ids = append(ids, 0xffffffff, 0x102030ffffff, 0xfffffffffffe)
+		}
+		for _, id := range ids {
+			in := IDInput{ID: id, Cfg: cfg}
+			n++
+			why := checkTableID(in)
+			if why == "HUNG" {
+				chk.Fatalf("table ids: Stream did not return within 60 s")
+			}
+			if why != "" {
+				r.Report(chk.Violation{Key: "table-id-edge", What: fmt.Sprintf("table id %#x cfg=%s: %s", id, CfgName(cfg), why),
+					Kind: "tableid", Replay: in, Recheck: func() string { return checkTableID(in) }})
+			}
+		}
+	}
+	r.Eval(n)
+	r.DistinctN(n)
+	r.Set("table_id_edge_histories", n)
+}
+
+// ReplayTableID replays a table-id execution.
+func ReplayTableID(input json.RawMessage) (bool, string) {
+	var in IDInput
+	if err := json.Unmarshal(input, &in); err != nil {
+		return false, err.Error()
+	}
+	why := checkTableID(in)
+	if why == "" {
+		return false, "every rows event of the table is delivered"
+	}
+	return true, why
+}
+
+// ---- a table id announced again with another column count --------------------------
+
+// CountInput is the replay form of a column-count execution.
+type CountInput struct {
+	Grow bool    `json:"grow"`
+	Kind int     `json:"kind"`
+	Cfg  ref.Cfg `json:"cfg"`
+}
+
+// checkCountChange: a table id is announced (the mapper's table fits), written,
+// and announced AGAIN for the same name with one column less / more. The
+// mapper's table no longer fits the table map: the rows that follow must be
+// rejected with an error (no panic, no delivery with shifted names).
+func checkCountChange(in CountInput) string {
+	t3 := TA(100)
+	t2 := &ref.Table{ID: 100, DB: t3.DB, Name: t3.Name, Flags: 1, Cols: append([]ref.Column{}, t3.Cols[:2]...)}
+	first, second := t3, t2
+	if in.Grow {
+		first, second = t2, t3
+	}
+	img := func(t *ref.Table, k int64) ref.Image {
+		r := rowA(k, fmt.Sprintf("l%d", k), 7)
+		return r[:len(t.Cols)]
+	}
+	g := &Gen{Cfg: in.Cfg}
+	ts := g.tick()
+	rc := ref.RowChange{After: img(second, 2)}
+	if in.Kind == 1 {
+		rc = ref.RowChange{Before: img(second, 2), After: img(second, 3)}
+	} else if in.Kind == 2 {
+		rc = ref.RowChange{Before: img(second, 2)}
+	}
+	evs := []*ref.AEvent{
+		ref.Q(ts, "shop", "BEGIN"), ref.TM(ts, first), ref.R(ts, ref.RowWrite, first, ref.RowChange{After: img(first, 1)}), ref.X(ts+1, 831),
+		ref.Q(ts+2, "shop", "BEGIN"), ref.TM(ts+2, second), ref.R(ts+2, ref.RowKind(in.Kind), second, rc), ref.X(ts+3, 832)}
+	h := &ref.History{Cfg: in.Cfg, Files: []*ref.File{{Name: "mysql-bin.000001", Events: evs}}}
+	h.Layout()
+	start := ref.Position{File: "mysql-bin.000001", Pos: 4}
+	served, _ := h.Serve(start.File, 4)
+	exp, _ := ref.Expect(served, start)
+	mapper := hx.NewMapper(first) // the mapper knows the table as it was first announced
+	out := Run(h, Opts{Start: start, ServerID: 3, LockStep: true, Mapper: mapper})
+	if out.Hung {
+		return "HUNG"
+	}
+	if out.StreamPanic[0] != "" {
+		return "panic in Stream: " + firstLine(out.StreamPanic[0])
+	}
+	if out.StreamErr[0] == nil {
+		return fmt.Sprintf("the table map announced again has %d columns, the mapper's table %d, but Stream returned nil (%d deliveries)", len(second.Cols), len(first.Cols), len(out.Deliveries))
+	}
+	if len(exp) < 1 {
+		return "generator error"
+	}
+	if d := hx.CompareAll(exp[:1], out.Snaps()); d != "" {
+		return "deliveries before the rejected rows: " + d
+	}
+	return ""
+}
+
+// RunCountChange is part of the end-to-end half of C15.
+func RunCountChange(r *chk.Run) {
+	var n int64
+	for _, cfg := range Cfgs() {
+		for _, grow := range []bool{false, true} {
+			for kind := 0; kind < 3; kind++ {
+				in := CountInput{Grow: grow, Kind: kind, Cfg: cfg}
+				n++
+				why := checkCountChange(in)
+				if why == "HUNG" {
+					chk.Fatalf("column count change: Stream did not return within 60 s")
+				}
+				if why != "" {
+					r.Report(chk.Violation{Key: "attr:count-change", What: fmt.Sprintf("grow=%v kind=%d cfg=%s: %s", grow, kind, CfgName(cfg), why),
+						Kind: "countchange", Replay: in, Recheck: func() string { return checkCountChange(in) }})
+				}
+			}
+		}
+	}
+	r.Eval(n)
+	r.DistinctN(n)
+	r.Set("column_count_change_histories", n)
+}
+
+// ReplayCountChange replays a column-count execution.
+func ReplayCountChange(input json.RawMessage) (bool, string) {
+	var in CountInput
+	if err := json.Unmarshal(input, &in); err != nil {
+		return false, err.Error()
+	}
+	why := checkCountChange(in)
+	if why == "" {
+		return false, "the rows behind the re-announcement are rejected with an error"
+	}
+	return true, why
+}
+
+// ---- tables whose names differ in case only -----------------------------------------
+
+// checkCaseTwins: shop.Item (unsigned columns) and shop.item (signed) are two
+// tables on a case-sensitive master; each must be looked up under its own name.
+func checkCaseTwins(cfg ref.Cfg) string {
+	lower := TA(110)
+	upper := &ref.Table{ID: 111, DB: "Shop", Name: "Item", Flags: 1, Cols: []ref.Column{
+		ref.ColInt(ref.TLong, "Id", true), ref.ColVarchar("Label", 40), ref.ColInt(ref.TShort, "Qty", false)}}
+	rowU := func(k int64) ref.Image {
+		return ref.Image{ref.VInt(ref.TLong, 4000000000+k, true), ref.VVarchar(40, []byte("U")), ref.VInt(ref.TShort, -k, false)}
+	}
+	g := &Gen{Cfg: cfg}
+	ts := g.tick()
+	evs := []*ref.AEvent{
+		ref.Q(ts, "shop", "BEGIN"), ref.TM(ts, lower), ref.R(ts, ref.RowWrite, lower, ref.RowChange{After: rowA(1, "l", 65535)}), ref.X(ts+1, 841),
+		ref.Q(ts+2, "Shop", "BEGIN"), ref.TM(ts+2, upper), ref.R(ts+2, ref.RowWrite, upper, ref.RowChange{After: rowU(1)}), ref.X(ts+3, 842),
+		ref.Q(ts+4, "shop", "BEGIN"), ref.TM(ts+4, upper), ref.TM(ts+4, lower),
+		ref.R(ts+4, ref.RowUpdate, upper, ref.RowChange{Before: rowU(1), After: rowU(2)}),
+		ref.R(ts+4, ref.RowDelete, lower, ref.RowChange{Before: rowA(1, "l", 65535)}), ref.X(ts+5, 843)}
+	h := &ref.History{Cfg: cfg, Files: []*ref.File{{Name: "mysql-bin.000001", Events: evs}}}
+	h.Layout()
+	start := ref.Position{File: "mysql-bin.000001", Pos: 4}
+	served, _ := h.Serve(start.File, 4)
+	exp, stop := ref.Expect(served, start)
+	if stop != nil {
+		return "generator error: " + stop.Why
+	}
+	out := Run(h, Opts{Start: start, ServerID: 3, LockStep: true, Mapper: hx.NewMapper(lower, upper)})
+	if out.Hung {
+		return "HUNG"
+	}
+	if out.StreamPanic[0] != "" {
+		return "panic in Stream: " + firstLine(out.StreamPanic[0])
+	}
+	if out.StreamErr[0] != nil {
+		return "Stream failed on a well-formed binlog: " + clip(out.StreamErr[0].Error(), 200)
+	}
+	return hx.CompareAll(exp, out.Snaps())
+}
+
+// RunCaseTwins is part of the end-to-end halves of C10 and C15.
+func RunCaseTwins(r *chk.Run) {
+	var n int64
+	for _, cfg := range Cfgs() {
+		cfg := cfg
+		n++
+		if why := checkCaseTwins(cfg); why != "" && why != "HUNG" {
+			r.Report(chk.Violation{Key: "attr:case-twins", What: fmt.Sprintf("tables Shop.Item / shop.item cfg=%s: %s", CfgName(cfg), why),
+				Kind: "casetwins", Replay: cfg, Recheck: func() string { return checkCaseTwins(cfg) }})
+		}
+	}
+	r.Eval(n)
+	r.DistinctN(n)
+	r.Set("case_twin_histories", n)
+}
+
+// ReplayCaseTwins replays a case-twins execution.
+func ReplayCaseTwins(input json.RawMessage) (bool, string) {
+	var cfg ref.Cfg
+	if err := json.Unmarshal(input, &cfg); err != nil {
+		return false, err.Error()
+	}
+	why := checkCaseTwins(cfg)
+	if why == "" {
+		return false, "each table is looked up and labelled under its own name"
+	}
+	return true, why
+}
+
+// ---- event headers whose first bytes take every value, through the reader -----------
+
+// checkHeaderBytes streams 768 transactions whose event timestamps have every
+// low byte 0..255 combined with second bytes 0x00, 0x01 and 0xef (the first
+// bytes of the packet payload behind the OK byte): what the reader hands to the
+// parser must be the event as sent, whatever its leading bytes look like.
+func checkHeaderBytes(cfg ref.Cfg) string {
+	t := TA(70)
+	var evs []*ref.AEvent
+	k := int64(0)
+	for _, b1 := range []uint32{0x00, 0x01, 0xef} {
+		for b0 := uint32(0); b0 < 256; b0++ {
+			ts := uint32(0x5f210000) | b1<<8 | b0
+			k++
+			evs = append(evs, ref.Q(ts, "shop", "BEGIN"), ref.TM(ts, t),
+				ref.R(ts, ref.RowWrite, t, ref.RowChange{After: rowA(k, "h", k%60000)}), ref.X(ts, uint64(k)))
+		}
+	}
+	h := &ref.History{Cfg: cfg, Files: []*ref.File{{Name: "mysql-bin.000001", Events: evs}}}
+	h.Layout()
+	start := ref.Position{File: "mysql-bin.000001", Pos: 4}
+	served, _ := h.Serve(start.File, 4)
+	exp, stop := ref.Expect(served, start)
+	if stop != nil {
+		return "generator error: " + stop.Why
+	}
+	out := Run(h, Opts{Start: start, ServerID: 3, LockStep: false})
+	if out.Hung {
+		return "HUNG"
+	}
+	if out.StreamPanic[0] != "" {
+		return "panic in Stream: " + firstLine(out.StreamPanic[0])
+	}
+	if out.StreamErr[0] != nil {
+		return fmt.Sprintf("Stream failed on a well-formed binlog after %d of %d transactions: %s", len(out.Deliveries), len(exp), clip(out.StreamErr[0].Error(), 200))
+	}
+	return hx.CompareAll(exp, out.Snaps())
+}
+
+// RunHeaderBytes is an end-to-end half of C16 and C17.
+func RunHeaderBytes(r *chk.Run) {
+	var n int64
+	for _, cfg := range Cfgs() {
+		cfg := cfg
+		n++
+		if why := checkHeaderBytes(cfg); why != "" && why != "HUNG" {
+			r.Report(chk.Violation{Key: "reader:leading-header-bytes", What: fmt.Sprintf("768 transactions with every leading timestamp byte, cfg=%s: %s", CfgName(cfg), why),
+				Kind: "headerbytes", Replay: cfg, Recheck: func() string { return checkHeaderBytes(cfg) }})
+		}
+	}
+	// a second format description (log rotation) under every wire configuration
+	for _, cfg := range Cfgs() {
+		for _, units := range [][]string{{UTxXID, URotate, UDDL, UTxXID}, {UDDL, URotate, URotate, UTxCommit}} {
+			in := HistInput{Units: units, Cfg: cfg, LockStep: true, Oracle: "fidelity"}
+			n++
+			if why, _, _ := checkGrouping(in); why != "" && why != "HUNG" {
+				r.Report(chk.Violation{Key: "stream:second-format-description", What: fmt.Sprintf("units=%v cfg=%s: %s", units, CfgName(cfg), why),
+					Kind: "history", Replay: in, Recheck: func() string { w, _, _ := checkGrouping(in); return w }})
+			}
+		}
+	}
+	r.Eval(n)
+	r.DistinctN(n)
+	r.Set("header_byte_histories", n)
+}
+
+// ReplayHeaderBytes replays a header-bytes execution.
+func ReplayHeaderBytes(input json.RawMessage) (bool, string) {
+	var cfg ref.Cfg
+	if err := json.Unmarshal(input, &cfg); err != nil {
+		return false, err.Error()
+	}
+	why := checkHeaderBytes(cfg)
+	if why == "" {
+		return false, "all 768 transactions are delivered as sent"
 	}
 	return true, why
 }
